@@ -21,6 +21,7 @@ import (
 	"sort"
 	"strings"
 	"sync"
+	"sync/atomic"
 	"time"
 
 	"verif/reg"
@@ -231,6 +232,10 @@ func merge(job reg.Job, rs []*reg.Result) *reg.Result {
 	return m
 }
 
+// VERIF_FIRST=1: stop starting new shards once a violation has been reported (never set by the registered commands)
+var stopAtFirst = os.Getenv("VERIF_FIRST") == "1"
+var violationSeen int32
+
 func runJobs(meta propMeta, tier string, only string) []*jobResult {
 	const slots = 16
 	sem := make(chan struct{}, slots)
@@ -302,6 +307,13 @@ func runJobs(meta propMeta, tier string, only string) []*jobResult {
 						<-sem
 					}
 				}()
+				if stopAtFirst && atomic.LoadInt32(&violationSeen) != 0 {
+					// VERIF_FIRST=1 (re-running many seeded changes): a violation is already reported, the shards not yet started are skipped
+					r := reg.NewResult(job.Part)
+					r.Exhaustive = false
+					shardRes[s] = r
+					return
+				}
 				var kv []string
 				for k, v := range job.Args {
 					kv = append(kv, k+"="+v)
@@ -398,6 +410,9 @@ func runJobs(meta propMeta, tier string, only string) []*jobResult {
 					jr.Errs = append(jr.Errs, fmt.Sprintf("job %q shard %d: %v %v\n%s", job.Label, s, err, rerr, tail))
 					buildMu.Unlock()
 					return
+				}
+				if len(r.Violations) > 0 {
+					atomic.StoreInt32(&violationSeen, 1)
 				}
 				shardRes[s] = &r
 			}()
